@@ -94,6 +94,10 @@ RUNS = {
         ("forms", dict(mode="skeletons", profile="forms", maxtok=20, maxmut=1, mutset="tiny", invariants=SK_INV), ()),
         ("scope", dict(mode="skeletons", profile="scope", maxtok=20, nameset="core", invariants=SK_INV), ()),
         ("strings", dict(mode="strings", maxlen=3, pumplen=40, pumpprefix=2, invariants=("C01_PlainPrefixClosed",)), ()),
+        ("fold", dict(mode="skeletons", profile="fold", maxtok=22, invariants=SK_INV), ()),
+        ("kwarg", dict(mode="skeletons", profile="kwarg", maxtok=32, nameset="core", invariants=SK_INV), ()),
+        ("pairs", dict(mode="skeletons", profile="pairs", maxtok=24, nameset="core", invariants=SK_INV), ()),
+        ("numbers", dict(mode="numbers", maxlen=3), ()),
     ],
     "thorough": [
         ("expr", dict(mode="skeletons", profile="expr", maxtok=7, invariants=SK_INV), ()),
@@ -103,6 +107,10 @@ RUNS = {
          ("-simulate", "num=12000", "-depth", "60")),
         ("scope", dict(mode="skeletons", profile="scope", maxtok=24, nameset="all", invariants=SK_INV), ()),
         ("strings", dict(mode="strings", maxlen=4, pumplen=40, pumpprefix=2, invariants=("C01_PlainPrefixClosed",)), ()),
+        ("fold", dict(mode="skeletons", profile="fold", maxtok=22, invariants=SK_INV), ()),
+        ("kwarg", dict(mode="skeletons", profile="kwarg", maxtok=32, nameset="all", invariants=SK_INV), ()),
+        ("pairs", dict(mode="skeletons", profile="pairs", maxtok=24, nameset="core", invariants=SK_INV), ()),
+        ("numbers", dict(mode="numbers", maxlen=4), ()),
     ],
 }
 
@@ -160,15 +168,24 @@ def write_out(case, envname, scheme):
     d = lg["delims"][SYNTAX_OF[envname]]
     if case["kind"] == "string":
         return "".join("".join(d[s]) if s in d else s for s in case["syms"])
+    if case["kind"] == "number":
+        # scheme = "frame:<i>": the spelling inside the i-th frame of the spec
+        pre, post = lg["numframes"][int(scheme.split(":")[1])]
+        nc = lg["numcodes"]
+        return "".join("".join(d[s]) if s in d else (chr(nc[s]) if s in nc else s)
+                       for s in list(pre) + list(case["syms"]) + list(post))
     pool = NAMES[scheme]
+    codes = lg["codes"]
     parts = []
     k = 0
     for tk in case["toks"]:
         if tk in d:
             parts.append("".join(d[tk]))
-        elif tk == "N":
+        elif tk == "N" or tk == "K":
             parts.append(pool[k % len(pool)])
             k += 1
+        elif tk in codes:
+            parts.append("".join(chr(c) for c in codes[tk]))
         else:
             parts.append(lg["legend"].get(tk, tk))
     return " ".join(parts)
@@ -261,6 +278,10 @@ def plan(case, seed_rng, tier):
             out.append((envname, PREDICTED[(seed_rng + i) % 3], "compiles"))
         out.append(("default", "alias", "compiles-or-syntax-error"))
         out.append((ENV_CONFIGS[seed_rng % 7], "special", "compiles-or-syntax-error"))
+    elif k == "number":
+        for i in range(len(_W["legend"]["numframes"])):
+            out.append(("default", f"frame:{i}", "compiles-or-syntax-error"))
+        out.append((ENV_CONFIGS[1 + seed_rng % 6], "frame:0", "compiles-or-syntax-error"))
     elif k == "named":
         # a special name at some identifier positions (written by the spec); the other identifiers distinct,
         # and once all equal to one ordinary name
@@ -395,7 +416,7 @@ def run(ck):
     ck.extra["cases_per_run"] = counts
     kinds = {}
     for ln in lines:
-        k = ln[9:ln.index('"', 9)]
+        k = re.search(r'"kind":"(\w+)"', ln).group(1)
         kinds[k] = kinds.get(k, 0) + 1
     ck.extra["cases_per_kind"] = kinds
     if not kinds.get("valid") or not kinds.get("string"):
@@ -408,6 +429,14 @@ def run(ck):
     if not npumped:
         raise core.MachineryError("vacuous: no pumped strings generated")
     ck.extra["pumped_strings"] = npumped
+    for fam, mark in (("keyword-argument names", '"muts":[["kwname"'), ("identifier pairs", '"muts":[["pair"'),
+                      ("number spellings", '"kind":"number"')):
+        c = sum(1 for ln in lines if mark in ln)
+        if not c:
+            raise core.MachineryError(f"vacuous: no cases of the family {fam}")
+        ck.extra["cases_" + fam.replace(" ", "_").replace("-", "_")] = c
+    if not counts.get("fold"):
+        raise core.MachineryError("vacuous: no constant-folding sentences")
 
     agg = {}
     loads = 0
